@@ -205,6 +205,7 @@ func c14Gen(r *rand.Rand, n int, tier string) []string {
 func c14RuleCase(r *rand.Rand) string {
 	rule := client.Rule{ID: "rule"}
 	var hm []string
+	day0 := c13Day0(r)
 	for i := 0; i < 2+r.Intn(2); i++ {
 		c := client.Condition{ID: fmt.Sprintf("c%d", i), ConditionType: data.PointValueSchedule,
 			Start: pick(r, []string{"00:00", "08:30", "23:00", "2:00", "22:45", "12:00"}), End: pick(r, []string{"00:00", "09:00", "01:00", "5:00", "1:15", "17:45"})}
@@ -215,6 +216,10 @@ func c14RuleCase(r *rand.Rand) string {
 		}
 		if r.Intn(6) == 0 {
 			c.Dates = []string{pick(r, []string{"2023-06-15", "2023-06-16", "2023-06-18"})}
+		} else if r.Intn(4) == 0 {
+			for k := 0; k < 1+r.Intn(2); k++ {
+				c.Dates = append(c.Dates, time.Unix(day0+int64(r.Intn(7))*86400, 0).UTC().Format("2006-01-02"))
+			}
 		}
 		hm = append(hm, c.Start, c.End)
 		rule.Conditions = append(rule.Conditions, c)
@@ -228,7 +233,7 @@ func c14RuleCase(r *rand.Rand) string {
 	for e := 0; e < 2+r.Intn(4); e++ {
 		var h, m int
 		fmt.Sscanf(pick(r, hm), "%d:%d", &h, &m)
-		day := int64(1686787200) + int64(r.Intn(7))*86400 // 2023-06-15 (a Thursday) and the six days after it
+		day := day0 + int64(r.Intn(7))*86400 // the first day (2023-06-15, a Thursday, or a day before the end of a month) and the six after it
 		off := pick(r, []int64{-1800, -60, -1, 0, 1, 60, 1799, 7200})
 		evs = append(evs, fmt.Sprintf("t:%d", (day+int64(h)*3600+int64(m)*60+off)*1e9))
 	}
